@@ -240,8 +240,16 @@ func runC14(r *Report, tier string) {
 		scope := []*ssa.Function{P.keyValidate(), P.methodOf(keyT, "UnmarshalCBOR")}
 		for _, f := range append([]*ssa.Function{}, scope...) {
 			for _, ci := range callsIn(f, nil) {
-				if c := staticCallee(ci); c != nil && P.inPkg(c) && c.Signature.Recv() != nil && isNamed(deref(c.Signature.Recv().Type()), cosePath, "Key") {
-					scope = append(scope, c)
+				c := staticCallee(ci)
+				if c == nil || !P.inPkg(c) {
+					continue
+				}
+				// helpers that work on the key: as receiver or as a parameter
+				for _, prm := range c.Params {
+					if isNamed(deref(prm.Type()), cosePath, "Key") {
+						scope = append(scope, c)
+						break
+					}
 				}
 			}
 		}
@@ -279,6 +287,15 @@ func runC14(r *Report, tier string) {
 					o := r.ob("R14.4", fmt.Sprintf("%s:length-guard#%d", shortFn(fn), n), fn, iff, "EC2 coordinate length is only refused when it exceeds the curve size")
 					nc := normCond(t)
 					okG := nc.Op == "binop" && nc.S == "<" && strings.Contains(nc.Args[0].String(), "call<") && nc.Args[1].Op == "len"
+					if !okG && nc.Op == "binop" && nc.S == "<" && strings.Contains(nc.Args[0].String(), "call<") && nc.Args[1].Op == "max" {
+						// size < max(len(x), len(y), len(d)): the longest one exceeds the size
+						okG = true
+						for _, a := range nc.Args[1].Args {
+							if a.Op != "len" {
+								okG = false
+							}
+						}
+					}
 					o.check(okG, nc.String(), "coordinate length compared by "+truncate(nc.String(), 200)+": anything but 'size < len' refuses keys whose coordinate lost leading zeros")
 				}
 				visit(ct)
